@@ -107,19 +107,27 @@ def _case(draw):
 
 
 def _permute_decls(decls, seed):
-    """A permutation that keeps every declaration after the ones it depends on: only consecutive
-    runs of mutually independent declarations (functions, callbacks, constants) are rotated, and a
-    forward typedef may swap with the struct body that follows it."""
+    """A permutation that keeps every declaration after the ones it depends on: function declarations
+    (which only use types, and the generator declares all types before the first function) are permuted
+    among their own slots, and a forward typedef may swap with the struct body that directly follows it."""
     out = list(decls)
+    slots = [i for i, d in enumerate(out) if d['d'] == 'function' and not d['name'].endswith('_get_type')]
+    funcs = [out[i] for i in slots]
+    if len(funcs) > 1:
+        k = seed % len(funcs)
+        funcs = funcs[k:] + funcs[:k]
+        if (seed // 7) % 2:
+            funcs.reverse()
+        for i, f in zip(slots, funcs):
+            out[i] = f
     i = 0
-    k = seed
+    k = seed // 3
     while i < len(out) - 1:
         a, b = out[i], out[i + 1]
-        indep = (a['d'] == 'function' and b['d'] == 'function')
         fwd = (a['d'] == 'compound' and b['d'] == 'compound' and a.get('tag') and a.get('tag') == b.get('tag')
                and a.get('fields') is None and a.get('typedef') and b.get('fields') is not None and not b.get('typedef')
                and not _mentions(b, a['typedef']))
-        if (indep or fwd) and (k % 2):
+        if fwd and (k % 2):
             out[i], out[i + 1] = b, a
             i += 2
         else:
